@@ -75,5 +75,10 @@ def generate(tier, seed, info):
         m = ";".join("%x:%s" % (a, isa.hexb(b)) for a, b in mem.items())
         lines.append("id=%x kind=irq tag=%x pc=%x ccr=%x er=%s mem=%s ops=%s" % (
             cid, tag, main_base, ccr, ",".join("%x" % x for x in er), m, ",".join(ops)))
+    # requests raised by a peripheral itself: programs in which 8-bit timer 0 interrupts the main loop (through Cpu::run)
+    from . import c13
+    tl = c13.timer_irq_programs(rnd, 300 if tier == "quick" else 5000, tag, n_cases)
+    lines += tl
+    info["timer_interrupt_programs"] = len(tl)
     info["cases"] = len(lines)
     return common.shard(lines)
